@@ -53,6 +53,12 @@ static int body_z(fibre_t *f)
 	entered = 1;
 	for (;;) {
 		orc_dispatch(F_Z, entered); entered = 0;
+		if (C6.zkick) {
+			/* "kick a worker, then sleep": a main-context call from inside the running fibre drains the atomic queue */
+			orc_main_call(MA_RUN_Y, 1, 0);
+			fibre_run(&fy);
+			orc_main_call(MA_RUN_Y, 0, 0);
+		}
 		if (C6.zdelta) {
 			bool r = fibre_timeout(C6_T0 + (uint32_t)C6.zdelta);
 			orc_timeout_result(F_Z, C6_T0 + (uint32_t)C6.zdelta, r);
